@@ -320,9 +320,15 @@ func (r *Run) Finish() {
 		"violations":  unlisted,
 	}
 	if r.Only == "" && r.Replay == "" {
-		os.MkdirAll(filepath.Join(VerifDir, "evidence"), 0o755)
+		// A self-test run against a patched overlay (VERIF_MUTANT) never overwrites the
+		// evidence of the unchanged tree: its evidence goes to evidence-mutant/ (ignored by git).
+		evdir := "evidence"
+		if os.Getenv("VERIF_MUTANT") != "" {
+			evdir = "evidence-mutant"
+		}
+		os.MkdirAll(filepath.Join(VerifDir, evdir), 0o755)
 		b, _ := json.MarshalIndent(evd, "", " ")
-		if err := os.WriteFile(filepath.Join(VerifDir, "evidence", r.Prop+".json"), b, 0o644); err != nil {
+		if err := os.WriteFile(filepath.Join(VerifDir, evdir, r.Prop+".json"), b, 0o644); err != nil {
 			HarnessError("cannot write evidence: %v", err)
 		}
 	}
